@@ -197,6 +197,17 @@ func ruleR41(c *Ctx) *RuleResult {
 			case t.Op == "-" && len(t.Args) == 2:
 				return shl(t.Args[0]).add(shl(t.Args[1]), -1)
 			case t.Op == "<<" && len(t.Args) == 2:
+				// c << x with a constant c: c times the power-of-two atom 1 << x
+				if cst, ok := t.Args[0].constInt(); ok && cst >= 0 && cst < 64 {
+					if _, isC := t.Args[1].constInt(); !isC {
+						a := linAtom("(<< #:1 " + noEpoch(t.Args[1]) + ")")
+						out := linConst(0)
+						for i := 0; i < int(cst); i++ {
+							out = out.add(a, 1)
+						}
+						return out
+					}
+				}
 				if k, ok := t.Args[1].constInt(); ok && k >= 0 && k < 8 {
 					x := shl(t.Args[0])
 					out := linConst(0)
@@ -230,12 +241,97 @@ func ruleR41(c *Ctx) *RuleResult {
 				if len(d.c) == 0 && d.k != 0 {
 					bad = append(bad, fmt.Sprintf("end - start is (start + 1) %+d: start = %s, end = %s", d.k, trunc(noEpoch(g.Exit.Args[0]), 100), trunc(noEpoch(g.Exit.Args[1]), 140)))
 				}
+				// a difference that is a non-zero multiple of the very powers of two start is written with is not zero either
+				// (atoms that do not occur in start may be another spelling of the same power: no verdict)
+				if len(d.c) > 0 {
+					own := true
+					for a, n := range d.c {
+						if n == 0 {
+							continue
+						}
+						if _, inStart := st.c[a]; !inStart {
+							own = false
+						}
+					}
+					if own {
+						bad = append(bad, fmt.Sprintf("end - start differs from start + 1 by %s: start = %s, end = %s", trunc(d.String(), 80), trunc(noEpoch(g.Exit.Args[0]), 100), trunc(noEpoch(g.Exit.Args[1]), 140)))
+					}
+				}
 			}
 		}
 		if len(bad) > 0 {
 			r.bad(key, clause, p.FuncPos(fn), strings.Join(dedup(bad), "\n"))
 		} else if n > 0 {
 			r.ok(key, clause, p.FuncPos(fn), fmt.Sprintf("%d return path(s); where both ends are linear over the same powers of two, end - start = start + 1", n))
+		}
+	}
+	// filling a level: the iterator reads list slots in a loop; every slot it reads lies below the heap's size — the loop bound is
+	// the size itself, or a bound the entering path knows to be at most the size (the clamp `if end > Size() { end = Size() }`;
+	// clamping against Size()+1 lets the level of a heap with 2^(k+1)-2 elements read one slot past the end: the list answers
+	// the zero value, which is then ordered into the level as if it were an element)
+	if it := typeByKey(p, "trees/binaryheap.Iterator"); it != nil {
+		if fn := methodsOf(p, it)["Value"]; fn != nil {
+			key := "trees/binaryheap.Iterator.level-fill"
+			clause := "every list slot the iterator's Value() reads while collecting a level is known to lie below the heap's size"
+			gc := c.GC(fn)
+			var bad []string
+			n := 0
+			isLen := func(t *Term) bool {
+				s := noEpoch(t)
+				return (t.Op == "len" && strings.Contains(s, "(fa:elements ") && strings.Contains(s, "(fa:heap p:0)")) || (t.Op == "call" && strings.HasSuffix(t.Leaf, ").Size") && strings.Contains(s, "(fa:heap p:0)"))
+			}
+			if gc.Undecided == "" {
+				for _, g := range gc.GCs {
+					var slot *Term
+					for _, ef := range g.Effects {
+						ef.any(func(t *Term) bool {
+							if t.Op == "call" && strings.HasSuffix(t.Leaf, ").Get") && len(t.Args) == 3 && t.Args[2].Op == "φ" && strings.Contains(noEpoch(t.Args[1]), "(fa:heap p:0)") {
+								slot = t.Args[2]
+							}
+							return false
+						})
+					}
+					if slot == nil {
+						continue
+					}
+					n++
+					ok := false
+					know := append(append([]*Term(nil), g.Guards...), entryKnowledge(gc, g.From, 0)...)
+					for _, a := range g.Guards {
+						if a.Op != "<" || len(a.Args) != 2 || a.Args[0].String() != slot.String() {
+							continue
+						}
+						B := a.Args[1]
+						if isLen(B) {
+							ok = true
+						}
+						// min(…, size, …)
+						if (B.Op == "min" || (B.Op == "std" && B.Leaf == "min")) && B.any(isLen) {
+							ok = true
+						}
+						// a bound handed back by a helper of the package other than the raw level arithmetic (a levelBounds that
+						// clamps inside): not judged here
+						if B.any(func(t *Term) bool {
+							return (t.Op == "call" || t.Op == "res") && !strings.HasSuffix(t.Leaf, "numOfBits") && !strings.HasSuffix(t.Leaf, "evaluateRange") && t.Leaf != ""
+						}) {
+							ok = true
+						}
+						for _, kfact := range know {
+							if kfact.Op == "<=" && len(kfact.Args) == 2 && noEpoch(kfact.Args[0]) == noEpoch(B) && isLen(kfact.Args[1]) {
+								ok = true
+							}
+						}
+					}
+					if !ok {
+						bad = append(bad, "a level is filled from list slot "+slot.String()+" without knowing it below the heap's size: "+trunc(guardsString(g), 200))
+					}
+				}
+			}
+			if len(bad) > 0 {
+				r.bad(key, clause, p.FuncPos(fn), strings.Join(dedup(bad), "\n"))
+			} else if n > 0 {
+				r.ok(key, clause, p.FuncPos(fn), fmt.Sprintf("%d level-filling loop path(s), each bounded by the size or by a bound clamped to it", n))
+			}
 		}
 	}
 	// the iterator orders each level with a temporary heap: that heap must be ordered by the heap's own comparator (the very
